@@ -26,7 +26,8 @@ def run(ctx):
     ctx.trusted = ["Lean kernel; Props/C12.traceOK_sound", "the machine is my reading of the Metrics/Traffic API contract (file naming <prefix>-<rank>-<type>.csv, consumable registrations); "
                    "the event extraction HF.stmtItems is executable Lean evaluated on the real trees (no theorem about the extractor)", "specifications are sampled"]
     k = 1 if ctx.tier == "quick" else 8
-    recs = pool.collect(ctx, [dict(gen="corpus", count=0, modes=["metrics"], all_workers=True), dict(gen="g7", count=150 * k, modes=["metrics"])])
+    recs = pool.collect(ctx, [dict(gen="corpus", count=0, modes=["metrics"], all_workers=True), dict(gen="g7", count=150 * k, modes=["metrics"]),
+                              dict(gen="g7lf", count=25 * k, modes=["metrics"])])
     reqs, metas = [], []
     for r in recs:
         tags = set(r["case"]["tags"]) if r.get("case") else set()
